@@ -131,6 +131,19 @@ func (r *Report) emit(o checkOpts, toolErrs []string) int {
 	}
 	fmt.Printf("gvc %s tier=%s: %d functions under contract, %d obligations, %d discharged, %d known findings, %d violations, solver %.1fs, wall %.1fs\n",
 		r.id, r.tier, nf, len(r.obs), discharged, len(knownHit), violations, solverTime, r.wallS)
+	// a failed obligation is assumed after it is reported, so code after it can become unreachable: cover-guard failures
+	// that accompany a violation are consequences of it, not tool errors (a violation always has a satisfiable path)
+	if violations > 0 {
+		var rest []string
+		for _, e := range toolErrs {
+			if strings.HasPrefix(e, "vacuity guard failed: no satisfiable path reaches") {
+				fmt.Println("NOTE (follows from the violation):", e)
+				continue
+			}
+			rest = append(rest, e)
+		}
+		toolErrs = rest
+	}
 	for _, e := range toolErrs {
 		fmt.Println("TOOL-ERROR:", e)
 	}
